@@ -83,7 +83,7 @@ def concurrent_runs(ctx, w, thorough):
         ctx.fail("AnalyzerTraceRejected", "TraceAnalyzer rejects the recorded parallel run at line %s: %s" % (bad, line), {"line": bad, "event": line})
     # race detector: parallel passes, no recorder
     for k in range(2 if thorough else 1):
-        rr, res = analyze(ctx, w["dir"], flags="enable-all=true", race=True, repeat=12)
+        rr, res = analyze(ctx, w["dir"], flags="enable-all=true", race=True, repeat=12 if thorough else 6)
         out["race_runs"] += 1
         if "DATA RACE" in rr.stderr:
             i = rr.stderr.index("DATA RACE")
